@@ -115,14 +115,19 @@ pub fn run(ctx: &Ctx) -> i32 {
                 Ok(c) => c,
                 Err(_) => continue,
             };
-            let rep = c.run_case(&case, 0);
-            let (unknown, kn) = runner::triage(&findings, &rep);
-            regress.absorb(&rep);
-            for k in kn {
-                *regress.known_hits.entry((k.property, k.signature)).or_insert(0) += 1;
-            }
-            if let Some(v) = unknown.first() {
-                regress.failures.push((v.clone(), body["case"].clone()));
+            // (a history whose outcome depends on the iteration order of one of the tower's hash sets is replayed several times:
+            // every run boots a new tower with new hash seeds)
+            for _ in 0..body["repeat"].as_u64().unwrap_or(1).max(1) {
+                let rep = c.run_case(&case, 0);
+                let (unknown, kn) = runner::triage(&findings, &rep);
+                regress.absorb(&rep);
+                for k in kn {
+                    *regress.known_hits.entry((k.property, k.signature)).or_insert(0) += 1;
+                }
+                if let Some(v) = unknown.first() {
+                    regress.failures.push((v.clone(), body["case"].clone()));
+                    break;
+                }
             }
         }
     }
